@@ -5,7 +5,6 @@ import (
 	"flag"
 	"fmt"
 	"os"
-	"runtime"
 	"sort"
 	"strings"
 	"sync"
@@ -66,7 +65,7 @@ func cmdFunc(args []string) {
 	fs.Parse(args)
 	w := load(*dir)
 	pat := fs.Arg(0)
-	par := make(chan struct{}, runtime.NumCPU())
+	par := make(chan struct{}, vc.SolverSlots())
 	var keys []string
 	for _, k := range w.ListFuncs() {
 		if matched(pat, k) {
